@@ -19,7 +19,7 @@ CONSTANTS
   MaxOther = 0
   FirstCfgs = {0}
   StartCfgs = {0, 1}
-  PostReload = TRUE
+  PostReload = FALSE
   CfgKinds = {"value", "default"}
   Vias = {"set"}
 CONSTRAINT Bound
